@@ -447,6 +447,13 @@ static void convert_pp_number(Token *tok) {
   if (tok->loc + tok->len != end)
     error_tok(tok, "invalid numeric constant");
 
+  // A constant is rounded once, to its own type: going through long
+  // double first can round twice.
+  if (ty == ty_float)
+    val = strtof(tok->loc, NULL);
+  else if (ty == ty_double)
+    val = strtod(tok->loc, NULL);
+
   tok->kind = TK_NUM;
   tok->fval = val;
   tok->ty = ty;
